@@ -25,7 +25,7 @@ LEGEND = {
     'cli': 'knob.chunk max bytes per read/write; knob.eintr every n-th call interrupted; knob.rounds PBKDF2 rounds (0 = real); file name len seed; enc|dec name pw flags keyfile-ending rngfail then two fault slots (pw 0..9 ten unrelated passwords incl. empty, 1023, 1024 and 1025 characters; pw 10..19 the neighbour of pw-10: last character changed or one appended) '
            '(syscall ordinal kind arg; syscall 0 open-r 1 open-w 2 read 3 write 6 fopen 7 fread; kind 1 EINTR 2 EAGAIN 3 short 4 EIO 5 ENOSPC 6 EACCES 7 crash after arg bytes); flags bit0 explicit -e/-d bit1 -o bit2 key file bit3 stdin/stdout; '
            'tamper name kind seed; gen keyfile rngfail + faults; sum alg filemask missing + fault; chk alg filemask spoil seed + two short-fread slots; multi nfiles pw tamper seed + faults (several inputs in one invocation: joint encryption under faults, then joint decryption with one container spoiled); sweep name kind seed (thorough); hostile kind k seed',
-    'bytes': 'hexenc n upper capsel seed; hexdec nbytes kind capsel seed (kind 0 clean 1 whitespace 2 illegal char 3 odd digits; capsel exact/-1/0/+1/+17); hexcpp nbytes kind how seed; '
+    'bytes': 'hexenc n upper capsel seed (upper selects the int flag 0,1,2,-1,256,32,INT_MAX,INT_MIN); hexdec nbytes kind capsel seed (kind 0 clean 1 whitespace 2 illegal char 3 odd digits; capsel exact/-1/0/+1/+17); hexcpp nbytes kind how seed; '
              'ba op var other n value failat (op 0 default-construct 1 construct(n,v) 2 copy-construct 3 assign 4 [] write 5 [] read 6 data() write 7 resize 8 reserve 9 push_back 10 pop_back 11 clear 12 compare 13 iterate 14 destroy 15 write through end()-1 16 write through begin() 17 end() then begin() then fill 18 read through a const reference 19 a crowd of 2..513 copies of the variable, one written through data(); failat = k-th allocation fails)',
     'masked': 'knob.tape kind seed (0 random 1 zero 2 ones 3 const 4 period2 5 period3 6 counter 7 adversarial); w.* word ops (word, shares/other, size, seed); s.* state ops (state, shares|round, fresh-preserve, seed); k.key which how seed; a.aead alg mlen adlen tamper seed rerandomize (0 never 1 before first use 2 between encrypt and decrypt 3 both 4/5 = 1/2 with the library\'s own source); knob.page 1 = inputs/outputs and every word/state against guard pages; knob.unhealthy 1 = ascon_trng_init/_reseed report failure while values still flow',
     'keystore': 'key slot alg keyseed home; enc slot mlen adlen seed; dec slot mlen adlen seed tamper; save slot; restart slot where (bit0 other memory, bit1 dirty); free slot; siv alg mlen adlen seed',
